@@ -22,7 +22,8 @@ EXPLANATION = (
     "Event folding keeps the two sets disjoint: record_change is interpreted over the change kinds; run_once prunes "
     "unchanged paths before the glob reaction, applies EXTERNAL only to rows with an EXTERNAL transition, and clears "
     "both sets before signalling. Equivalence for all event sequences (delete-then-recreate, directory moves, inotify "
-    "coalescing) is run-time behaviour and is NOT claimed."
+    "coalescing) is run-time behaviour and is NOT claimed. "
+    'Also: record_change is interpreted over the previous membership of the path (last event wins, 6 points); the watch-side and restart-side glob reactions iterate the same registrations; R-C14-4 on resume the directories of every state a restart rescans are watched, and missing directories are remembered at every level.'
 )
 ASSUMPTIONS = ["inotify event delivery and coalescing are not modelled"]
 
